@@ -105,7 +105,18 @@ async fn check_reader<TC: Configuration>(db: &AsyncInMemoryDatabase, cache: Cach
                     Ok(_) => return Err(format!("history-wrong-result: {}", hx(&label))),
                     Err(e) => return Err(format!("history-does-not-verify: {} {e}", hx(&label))),
                 }
-                l.count("proofs_verified_at_crash_points", 2);
+                // most-recent-N histories as well (the N newest states as of the reader's epoch)
+                for n in [1usize, 2] {
+                    let hp = HistoryParams::MostRecent(n);
+                    let (p, eh) = ro.key_history(&AkdLabel(label.clone()), hp).await.map_err(|e| format!("history-fails: {} {hp:?} {e}", hx(&label)))?;
+                    let wantn: Vec<_> = wanth.iter().take(n).cloned().collect();
+                    match akd::client::key_history_verify::<TC>(&w.pk, eh.1, eh.0, AkdLabel(label.clone()), p, HistoryVerificationParams::Default { history_params: hp }) {
+                        Ok(rs) if eh == want && rs.len() == wantn.len() && rs.iter().zip(wantn.iter()).all(|(r, v)| ver_matches(v, r)) => {}
+                        Ok(_) => return Err(format!("history-wrong-result: {} {hp:?}", hx(&label))),
+                        Err(e) => return Err(format!("history-does-not-verify: {} {hp:?} {e}", hx(&label))),
+                    }
+                }
+                l.count("proofs_verified_at_crash_points", 4);
             }
         }
     }
